@@ -93,7 +93,7 @@ def generate(unit, scratch):
             ex = extract.extract_function(part)
             parts_text.append(ex.text)
             info["functions"].append(ex.info)
-    parts_text.append("#undef VERIF_RV\n#define VERIF_RV\n")
+    parts_text.append("#undef VERIF_RV\n#define VERIF_RV\n#undef VERIF_UNWIND\n#define VERIF_UNWIND\n")
     parts_text.append(unit.get("harness", ""))
     text = "\n".join(parts_text)
     path = os.path.join(scratch, unit["id"] + ".c")
